@@ -313,6 +313,78 @@ TABLE = [
 ]
 
 
+def check_waitarg(ck, prog):
+    """read_output_and_wait(..., waiting_allowed, ...) blocks only if its caller allows it.  stream_decode_mt() may pass
+    its per-call flag `waiting_allowed` (wait only when the application gave no more input) in the states that can make
+    progress by consuming input in the same call.  In a state that cannot consume input before that call (it only waits
+    for the workers: SEQ_INDEX_WAIT_OUTPUT, SEQ_BLOCK_THR_INIT, SEQ_BLOCK_INIT, SEQ_BLOCK_DIRECT_INIT, SEQ_ERROR) the
+    argument must be the constant true: otherwise a call made with unread input returns LZMA_OK without progress and
+    lzma_code() turns the second such call into LZMA_BUF_ERROR on a valid file."""
+    from sa import resume
+    ck.rule("C07-WAITARG", "states that cannot consume input before read_output_and_wait() pass waiting_allowed = true")
+    f = prog.fn("stream_decode_mt", FILE)
+    ck.saw_function(f)
+    sw = resume.Resume(prog, f).find_switch()
+    if not sw:
+        raise AnalysisBroken("stream_decode_mt: state switch not found")
+    swb = sw[0]
+    labels = {}
+    for s_ in swb.succs:
+        if s_ is not None and f.blocks[s_].label and f.blocks[s_].label.get("n"):
+            labels[s_] = f.blocks[s_].label["n"]
+    lab = set(labels)
+
+    def region(start):
+        seen, st = set(), [start]
+        while st:
+            x = st.pop()
+            if x in seen:
+                continue
+            seen.add(x)
+            st.extend(y for y in f.blocks[x].succs if y is not None and y != swb.id and y not in lab)
+        return seen
+    reg = {l: region(l) for l in lab}
+    n = 0
+    for b, i, e in f.iter_elems():
+        for c in ex.calls(e, into_refs=False):
+            if c.get("fn") != "read_output_and_wait" or len(c["args"]) < 7:
+                continue
+            L = sorted(labels[l] for l in lab if b.id in reg[l])
+            consumed = False
+            for l in lab:
+                if b.id not in reg[l]:
+                    continue
+                preds = {}
+                for x in reg[l]:
+                    for y in f.blocks[x].succs:
+                        if y in reg[l]:
+                            preds.setdefault(y, set()).add(x)
+                back, st = set(), [b.id]
+                while st:
+                    x = st.pop()
+                    if x in back:
+                        continue
+                    back.add(x)
+                    st.extend(preds.get(x, ()))
+                for x in back:
+                    for j, ee in enumerate(f.blocks[x].elems):
+                        if ee is None or (x == b.id and j >= i):
+                            continue
+                        if any(any("in_pos" in ex.show(a) for a in cc["args"]) for cc in ex.calls(ee, into_refs=False)):
+                            consumed = True
+            arg = c["args"][6]
+            n += 1
+            ok = consumed or (ex.const_val(arg) not in (None, 0))
+            ck.ob("C07-WAITARG", "/".join(L) or "?", ok, common.where(f, c),
+                  "%s: %s" % ("/".join(L), "input can be consumed before the call, waiting_allowed = `%s`" % ex.show(arg)
+                              if consumed else "no input can be consumed in this state, waits unconditionally") if ok else
+                  "stream_decode_mt(): in state %s nothing consumes input before read_output_and_wait(), but the call passes "
+                  "waiting_allowed = `%s` instead of true: with unread input and busy workers the call returns LZMA_OK "
+                  "without progress, and the next one becomes LZMA_BUF_ERROR on a valid file" % ("/".join(L), ex.show(arg)),
+                  key="WAITARG:" + "/".join(L))
+    ck.floor("C07-WAITARG", 6)
+
+
 def run(ck):
     ck.explanation = (
         "Lock discipline of the threaded decoder decided by a must-lockset dataflow on the path-sensitive "
@@ -332,6 +404,21 @@ def run(ck):
     mtcommon.check_end(ck, prog, CFG, "C07-END")
     mtcommon.check_stop_ack(ck, prog, CFG, "C07-STOPACK")
     mtcommon.check_init_quiesce(ck, prog, CFG, "C07-QUIESCE")
+    check_waitarg(ck, prog)
+    # the output queue shared with the other threaded coder is reset by lzma_outq_init() on every (re)initialisation
+    from . import reinit as _re
+    ck.rule("C07-OUTQRESET", "lzma_outq_init() resets every lzma_outq member that the queue operations modify")
+    _re.check_reset_cover(ck, prog, "C07-OUTQRESET", [
+        ("lzma_outq_init", "outqueue.c", "lzma_outq", ("lzma_outq_end",),
+         {"head": "emptied by `while (outq->head != NULL) move_head_to_cache()`: the loop exit condition is the reset state",
+          "tail": "set to NULL by move_head_to_cache() when the last buffer leaves the queue",
+          "bufs_in_use": "decremented per buffer by move_head_to_cache() until the queue is empty",
+          "mem_in_use": "decremented per buffer by move_head_to_cache() until the queue is empty",
+          "cache": "cached buffers are kept across sessions on purpose (trimmed to the new limit)",
+          "bufs_allocated": "counts the cached buffers that are kept",
+          "mem_allocated": "counts the cached buffers that are kept"}),
+    ])
+    ck.floor("C07-OUTQRESET", 2)
     ck.rule("C07-INITCONS", "members that stream_decoder_mt_init (re)initialises on some paths are initialised on "
                             "every path that returns LZMA_OK")
     from . import reinit
